@@ -105,41 +105,48 @@ def _cell(text):
     return int(m.group(1)), (int(m.group(2)) if m.group(2) is not None else None)
 
 
-def parse_overview_text(out):
+_BOX = re.compile("[\u2500-\u257f]")
+_TOTAL_LABELS = {"", "total", "totals", "sum", "all"}
+
+
+def _row_from_cells(cells):
+    """cells of one output line -> (label, [5 figures]) when the line ends in exactly five figure cells, else None.
+    Titles, rules, header rows, captions and footers are not rows; the parsers do not depend on box style or wording."""
+    cells = [c.strip().strip("*").strip() for c in cells]
+    while cells and cells[-1] == "":
+        cells.pop()
+    k = 0
+    while k < len(cells) and _CELL.match(cells[len(cells) - 1 - k]):
+        k += 1
+    if k != 5:
+        return None
+    label = " ".join(c for c in cells[: len(cells) - 5] if c).strip()
+    return label, [_cell(c) for c in cells[len(cells) - 5 :]]
+
+
+def _collect_rows(lines_of_cells):
     rows, totals = [], None
-    for ln in out.splitlines():
-        s = ln.strip()
-        if not s or "─" in s or s.startswith("Language") or s == "Overview":
+    for cells in lines_of_cells:
+        r = _row_from_cells(cells)
+        if r is None:
             continue
-        cells = re.split(r"\s{2,}", s)
-        if len(cells) == 6:
-            rows.append((cells[0], [_cell(c) for c in cells[1:]]))
-        elif len(cells) == 5:
+        label, figs = r
+        if label.lower() in _TOTAL_LABELS:
             if totals is not None:
                 raise ValueError("two totals rows")
-            totals = [_cell(c) for c in cells]
+            totals = figs
         else:
-            raise ValueError(f"unexpected line {ln!r}")
+            rows.append((label, figs))
     return rows, totals
+
+
+def parse_overview_text(out):
+    """Rows of the text overview, whatever the box style: box-drawing characters and '|' separate cells like wide gaps do."""
+    return _collect_rows(re.split(r"\s{2,}", _BOX.sub("  ", ln).replace("|", "  ").strip()) for ln in out.splitlines())
 
 
 def parse_overview_markdown(out):
-    rows, totals = [], None
-    for ln in out.splitlines():
-        s = ln.strip()
-        if not s or s.startswith("###") or "---" in s or "**Language**" in s:
-            continue
-        cells = [c.strip() for c in s.split("|")]
-        cells = [c for c in cells if c != ""]
-        if len(cells) != 6:
-            raise ValueError(f"unexpected line {ln!r}")
-        if cells[0].strip("*") == "Totals":
-            if totals is not None:
-                raise ValueError("two totals rows")
-            totals = [_cell(c) for c in cells[1:]]
-        else:
-            rows.append((cells[0], [_cell(c) for c in cells[1:]]))
-    return rows, totals
+    return _collect_rows([c for c in ln.strip().strip("|").split("|")] for ln in out.splitlines() if "|" in ln)
 
 
 COLS = ["files", "functions", "lines_of_code", "hard_to_maintain", "unmaintainable"]  # column order of both renderers
@@ -294,22 +301,31 @@ _TEXT_FINDING = re.compile(r"^(?P<path>\S+):(?P<line>\d+):(?P<col>\d+): (?P<len>
 _MORE = re.compile(r"^(\d+) more rows")
 
 
+_MORE_ANY = re.compile(r"(\d+)\s+(?:more|further|additional|other|omitted|hidden)\b|(\d+)\s+\w+\s+(?:omitted|not shown|hidden|truncated|left out)", re.I)
+
+
+def _more(line):
+    m = _MORE_ANY.search(line)
+    return int(m.group(1) or m.group(2)) if m else None
+
+
 def parse_findings_text(out):
+    """Finding rows ('path:line:col: length symbol name') and the figure of the omitted-rows note; headings, captions and
+    other lines are not rows."""
     shown, more = [], None
     for ln in out.splitlines():
-        s = ln.strip()
+        s = _BOX.sub(" ", ln).strip()
         if not s:
             continue
-        m = _MORE.match(s)
-        if m:
-            if more is not None:
-                raise ValueError("two 'more rows' lines")
-            more = int(m.group(1))
-            continue
         m = _TEXT_FINDING.match(s)
-        if not m:
-            raise ValueError(f"unexpected line {ln!r}")
-        shown.append((m.group("path"), m.group("name"), int(m.group("len"))))
+        if m:
+            shown.append((m.group("path"), m.group("name"), int(m.group("len"))))
+            continue
+        k = _more(s)
+        if k is not None:
+            if more is not None:
+                raise ValueError("two omitted-rows notes")
+            more = k
     return shown, more
 
 
@@ -317,26 +333,21 @@ def parse_findings_markdown(out, repo):
     shown, more = [], None
     for ln in out.splitlines():
         s = ln.strip()
-        if not s or "---" in s or "**" in s and s.startswith("| **"):
+        if not s:
             continue
-        m = _MORE.match(s)
-        if m:
-            if more is not None:
-                raise ValueError("two 'more rows' lines")
-            more = int(m.group(1))
+        if "|" not in s:
+            k = _more(s)
+            if k is not None:
+                if more is not None:
+                    raise ValueError("two omitted-rows notes")
+                more = k
             continue
-        cells = [c.strip() for c in s.split("|")]
-        cells = [c for c in cells if c != ""]
+        cells = [c.strip() for c in s.strip("|").split("|")]
         if repo:
-            if len(cells) != 3:
-                raise ValueError(f"unexpected line {ln!r}")
-            m2 = re.match(r"^(\S+) \[(\S+)\]\((\S+)\)$", cells[0])
-            if not m2:
-                raise ValueError(f"function cell {cells[0]!r}")
-            shown.append((cells[2], m2.group(2), int(cells[1])))
-        else:
-            if len(cells) != 5:
-                raise ValueError(f"unexpected line {ln!r}")
+            m2 = re.match(r"^(\S+) \[(\S+)\]\((\S+)\)$", cells[0]) if len(cells) == 3 else None
+            if m2 and cells[1].isdigit():
+                shown.append((cells[2], m2.group(2), int(cells[1])))
+        elif len(cells) == 5 and cells[1].isdigit() and cells[2].isdigit() and cells[3].isdigit() and " " in cells[4]:
             shown.append((cells[0], cells[4].split(" ", 1)[1], int(cells[3])))
     return shown, more
 
